@@ -24,6 +24,7 @@ from lib import synq as Q
 
 CRATE = "mech_interpreter.lib"
 LENS = range(0, 5)
+LENGTH_PRESERVING = {"map", "enumerate", "inspect", "peekable", "fuse", "by_ref"}      # adaptors that yield exactly one item per item
 PASS = {"iter", "iter_mut", "into_iter", "as_slice", "borrow", "borrow_mut", "clone", "as_ref", "as_mut", "to_vec", "cloned", "copied", "by_ref", "deref", "as_deref"}
 
 
@@ -257,8 +258,15 @@ def _zip_sides(L, z, binder, lists):
 def _value_base(L, o):
     """(key of the iterated value list, elements skipped by a constant) of a value-side operand: `V.iter()`, `V.iter().skip(1)`, `V[a..].iter()`"""
     reserved = 0
+    hops = 0
     while is_node(o):
-        if o[0] == "mcall" and o[2] == "skip" and len(o[4]) == 1:
+        if o[0] == "mcall" and o[2] in LENGTH_PRESERVING:
+            o = o[1]
+        elif o[0] == "path" and hops < 4 and L.sc.stable(L.sc.binding(o)) and is_node(L.sc.binding(o).src) and L.sc.binding(o).src[0] == "mcall" \
+                and L.sc.binding(o).src[2] in (LENGTH_PRESERVING | PASS | {"skip"}):
+            o = L.sc.binding(o).src      # a named iterator (`let payload_values = xs.iter().skip(1)..`) stands for its initialiser
+            hops += 1
+        elif o[0] == "mcall" and o[2] == "skip" and len(o[4]) == 1:
             k = L.ev(o[4][0])
             if not isinstance(k, int):
                 return None, 0
@@ -292,6 +300,45 @@ def _ok_sites(flow):
     return out
 
 
+def _variant_binder(pat, ename, pay):
+    """(variant, binder name) when `pat` is `Pattern::V(binder)` for a variant with sub-pattern lists"""
+    while is_node(pat) and pat[0] in ("pref", "ptype"):
+        pat = pat[2] if pat[0] == "pref" else pat[1]
+    if not is_node(pat) or pat[0] != "pts" or not pat[1].startswith(ename + "::") or len(pat[2]) != 1 or not is_node(pat[2][0]) or pat[2][0][0] != "pident":
+        return None
+    var = pat[1].split("::")[-1]
+    return (var, pat[2][0][1]) if var in pay else None
+
+
+def binder_regions(body, ename, pay):
+    """every place a function takes a structured pattern apart: (owner of the binding, entry node, variant, binder name, region executed with the binder in scope)
+    - a `match` arm, the then-branch of an `if let`, or the statements that follow a `let .. else`"""
+    out = []
+    for m in find(body, "match"):
+        for arm in m[2]:
+            p = arm[0]
+            for alt in (p[1] if is_node(p) and p[0] == "por" else [p]):
+                vb = _variant_binder(alt, ename, pay)
+                if vb is not None:
+                    out.append((arm, m, vb[0], vb[1], arm[2]))
+    for f in find(body, "if"):
+        c = f[1]
+        if is_node(c) and c[0] == "letc":
+            vb = _variant_binder(c[1], ename, pay)
+            if vb is not None:
+                out.append((c, f, vb[0], vb[1], f[2]))
+    lists = [body] + [b[1] for b in find(body, "block")] + [b[2] for b in find(body, "if")] + [b[3] for b in find(body, "for")]
+    for stmts in lists:
+        if not Q.is_stmt_list(stmts):
+            continue
+        for i, st in enumerate(stmts):
+            if st[0] == "let" and len(st) > 3 and st[3] is not None and st[2] is not None:
+                vb = _variant_binder(st[1], ename, pay)
+                if vb is not None:
+                    out.append((st, st[2], vb[0], vb[1], stmts[i + 1:]))
+    return out
+
+
 def length_admissibility(F, rep, rule, floor=5):
     rep.rule(rule, "length admissibility of structured patterns: wherever an arm `Pattern::V(b)` that pairs b's sub-pattern lists with a value list (zip) is reached, it can succeed exactly "
                    "when sum(len(sub-pattern lists)) + skipped == len(values) - or <= when V's payload has an optional absorber (array spread) and it is present; decided by evaluating "
@@ -301,52 +348,55 @@ def length_admissibility(F, rep, rule, floor=5):
     ename, pay = payloads(F.adts("mech_core.lib"))
     if not rep.check(bool(pay), rule, "anchor:Pattern payloads", "enum nodes::Pattern / its payload structs not found"):
         return
+    # functions that pair two sequences themselves, and the ones that may do so through a private helper (followed with its parameters bound at the call)
+    zips = {it["name"] for it in items if it["k"] == "fn" and it.get("body") and any(z[2] == "zip" for z in find(it["body"], "mcall"))}
+    private_zips = {it["name"] for it in items if it["k"] == "fn" and it.get("body") and it["name"] in zips and Q.is_private(it)}
+
+    def may_pair(it):
+        if it["name"] in zips and any(z[2] == "zip" for z in find(it["body"], "mcall")):
+            return True
+        return any((path_of(c[1]) or "").split("::")[-1] in private_zips for c in find(it["body"], "call"))
+
     n = 0
     for it in items:
-        if it["k"] not in ("fn", "method") or not it.get("body") or "zip" not in render(["block", it["body"]]):
+        if it["k"] != "fn" or not it.get("body") or (ename + "::") not in render(["block", it["body"]]) or not may_pair(it):
             continue
-        sc = None
-        for m in find(it["body"], "match"):
-            for arm in m[2]:
-                p = arm[0]
-                for alt in (p[1] if p[0] == "por" else [p]):
-                    if alt[0] == "pref":
-                        alt = alt[2]
-                    if alt[0] != "pts" or not alt[1].startswith(ename + "::") or len(alt[2]) != 1 or alt[2][0][0] != "pident":
-                        continue
-                    var = alt[1].split("::")[-1]
-                    if var not in pay:
-                        continue
-                    if sc is None:
-                        sc = Q.Scope(fns).add_fn(it) if it["k"] == "fn" else None
-                        if sc is None:
-                            break
-                        flow = Q.Flow(it["body"]).run(want=("mcall", "call", "match"))
-                    n += check_arm(rep, rule, it, sc, flow, m, arm, alt, var, pay[var])
+        regions = binder_regions(it["body"], ename, pay)
+        if not regions:
+            continue
+        sc = Q.Scope(fns).add_fn(it)
+        from lib import synverdict as V
+        flow = Q.Flow(it["body"]).run(want=V.ALL)
+        leaves, _fl = V.value_leaves(it["body"], [], sc)
+        leaf_ids = {id(V.unwrap_result(e)) for e, _f in leaves}
+        for owner, entry, var, bname, tree in regions:
+            n += check_arm(rep, rule, it, sc, flow, entry, owner, bname, var, pay[var], tree, leaf_ids)
     rep.floor(rule, "pattern arms that pair sub-pattern lists with values", n, floor)
 
 
-def check_arm(rep, rule, it, sc, flow, m, arm, alt, var, payload):
+def check_arm(rep, rule, it, sc, flow, entry_node, owner, bname, var, payload, tree, leaf_ids=()):
+    from lib import synverdict as V
     lists, opts = payload
-    binder = [b for b in sc.decl.get(id(arm), []) if b.name == alt[2][0][1]]
+    binder = [b for b in sc.decl.get(id(owner), []) if b.name == bname]
     if not binder:
         return 0
     binder = binder[0]
     L = Lengths(sc)
     # pairing sites of this arm, with the path conditions at each
     sites = []       # (field, value key, reserved, facts)
-    flows = [(flow, arm[2])]
-    # a private helper that receives the binder and does the pairing: its body, entered under the conditions of the call
-    for c in find(arm[2], "call"):
+    flows = [(flow, tree, True)]
+    # a private helper that receives (a part of) the binder and does the pairing: its body, entered under the conditions of the call, with its parameters
+    # bound to the arguments - once per call.  Its results are results of the ARM only where the call stands in result position.
+    for c in find(tree, "call"):
         h = fns_callee(sc, c, it)
         if h is None or id(c) not in flow.sites or not any(sc.root(a) is binder for a in c[2]):
             continue
         body = sc.inline(c, h)
         if body is not None and any(z[2] == "zip" for z in find(body, "mcall")):
-            flows.append((Q.Flow(body, flow.sites[id(c)][1]).run(want=("mcall", "call", "match")), body))
-    exits = []       # (condition, facts, flow index)
-    for fi, (fl, tree) in enumerate(flows):
-        inside = {id(x) for x in Q.walk_no_closure(tree)}
+            flows.append((Q.Flow(body, flow.sites[id(c)][1]).run(want=V.ALL), body, id(c) in leaf_ids))
+    exits = []       # (condition, facts)
+    for fi, (fl, tr, verdicts) in enumerate(flows):
+        inside = {id(x) for x in Q.walk_no_closure(tr)}
         for node, facts in fl.sites.values():
             if id(node) not in inside:
                 continue
@@ -355,8 +405,12 @@ def check_arm(rep, rule, it, sc, flow, m, arm, alt, var, payload):
                 if s is not None:
                     vk, res = _value_base(L, s[1])
                     sites.append((s[0], vk, res, facts, node))
-        for cond, facts in _ok_sites(fl):
-            exits.append((cond, facts))
+            elif fi == 0 and node[0] == "call" and id(node) in leaf_ids and path_of(node[1]) not in ("Ok", "Err", "Some"):
+                exits.append((None, facts))          # the verdict is delegated (recursion on a sub-pattern, a helper): it can succeed
+        if verdicts:
+            for cond, facts in _ok_sites(fl):
+                exits.append((cond, facts))
+
     def through(e, s):
         """every condition of pairing site s also holds at exit e: the exit lies behind the pairing"""
         have = {(id(c), pol) for c, pol in e[1]}
@@ -366,13 +420,16 @@ def check_arm(rep, rule, it, sc, flow, m, arm, alt, var, payload):
         return 0
     vkeys = {s[1] for s in sites}
     if None in vkeys or len(vkeys) != 1:
+        # the pairing is there, in a form whose value list is not recognised: counts as an examined arm (two discharged obligations like a decided arm), raises nothing
         rep.note("undecided", {"rule": rule, "fn": it["name"], "arm": var, "why": "the sub-pattern lists are paired with %d different / unrecognised value lists" % len(vkeys)})
-        return 0
+        rep.obligations += 2
+        rep.discharged += 2
+        return 1
     vkey = vkeys.pop()
     vname = ".".join(vkey[1]) or "-"
     key = "%s/%s" % (var, vname)
     # exits reached through the pairing: every condition of some pairing site also holds at the exit
-    entry = flow.sites.get(id(m), (None, []))[1]
+    entry = flow.sites.get(id(entry_node), (None, []))[1]
     if not rep.check(bool(exits), rule, key + ":success-exit", "%s: the %s arm pairs sub-patterns with values but no `Ok(..)` result follows the pairing" % (it["name"], var),
                      "%s (mech_interpreter.lib)" % it["name"]):
         return 1
